@@ -7,11 +7,13 @@ from lv import core, model, ref, canon, drive, functorgen
 from lv.props import common
 
 ID = 'C04'
-BUDGET = {'quick': 330, 'thorough': 6500}      # generated programs
+BUDGET = {'quick': 256, 'thorough': 4000}      # generated programs (~16 predicates each)
+WALL = {'quick': 900, 'thorough': 7200}
 RULE = ('layered non-recursive programs from the typed generator (facts with duplicates, '
         'joins, disjunction, negation, aggregation, functional predicates, nullary '
         'functional constants) with 1-6 statements N := F(A: B, ...) printed at random '
-        'positions: argument reached directly and through chains of 1-4 intermediate '
+        'positions under names whose lexicographic order is unrelated to their '
+        'dependency order: argument reached directly and through chains of 1-4 intermediate '
         'predicates, 1-3 arguments at once (also an argument below another argument), '
         'values that are fact twins / derived twins of equal signature / predicates that '
         'read the argument or the functor themselves / literals and constant predicates '
@@ -34,6 +36,15 @@ ASSUMPTIONS = ['reference evaluator lv/ref.py + dynamic rebinding (lv/functorgen
                'the functor-free programs (by-hand substituted / statements removed) '
                'must themselves agree with the reference, else the predicate is counted '
                'inconclusive (that is C01/C02 territory)',
+               'not generated (counted as excluded): an application whose argument names '
+               'a predicate of which the functor already holds a private copy made by an '
+               'earlier application and which it still reaches by name through a value '
+               '(rule substitution and late binding read "every use of A" differently '
+               'there; the statement does not decide); VERIF_C04_REBIND_COPIED=include '
+               'generates them and checks them against the by-hand substitution only',
+               'arguments are bound to predicates of identical signature (field names, '
+               'types, functional value), literals are non-negative integers and plain '
+               'lowercase strings', 'no annotations on functor / clones',
                'CPython sqlite3', 'composite values compared up to SQLite JSON text '
                'encoding', 'dialect-library parse memoised per process']
 OPTS = {}
@@ -153,7 +164,8 @@ def check_prog(prog, only=None):
     # "the program without the functor statements": predicates over made ones go too
     prog0['rules'] = [r for r in prog['rules'] if r['pred'] not in dependent]
     text0 = model.print_program(prog0)
-    rules, rules2, rules0 = parse(text), parse(text2), parse(text0)
+    rules, rules2 = parse(text), parse(text2)
+    lazy0 = []           # the statement-free program is parsed only when needed
     ev_dyn = functorgen.FunctorEval(prog, budget=400000)
     ev_hand = ref.Evaluator(prog2, budget=400000)
     ev_plain = ref.Evaluator(prog0, budget=400000)
@@ -184,7 +196,7 @@ def check_prog(prog, only=None):
             kind = res['kind'] = 'untouched'
             res['labels'] = ['role:' + x for x in sorted(role.get(pred, ['bystander']))]
             st, cols, exp = ref_rows(ev_plain, pred)
-            base_text, base_rules = text0, rules0
+            base_text, base_rules = text0, None
         if st in ('ref_too_big', 'result_too_large'):
             # never hand SQLite a query the nested-loop reference could not finish
             done('inconclusive', st)
@@ -205,6 +217,10 @@ def check_prog(prog, only=None):
         # for made predicates (second oracle), else only to attribute a problem.
         base = None
         if problem is not None or kind == 'made' or st != 'ok':
+            if kind == 'untouched':
+                if not lazy0:
+                    lazy0.append(parse(text0))
+                base_rules = lazy0[0]
             base = run_pred(base_text, base_rules, pred)
             if base[0] != 'ok':
                 done('inconclusive', 'base_' + base[1].split(':')[0])
@@ -236,7 +252,8 @@ def check_prog(prog, only=None):
                     'untouched': 'predicate changed its meaning in the presence of '
                                  'functor statements; the program without them agrees '
                                  'with the reference'}[kind]
-            done('fail', '%s:%s' % (kind, problem[0]), what + '\n' + problem[1])
+            done('fail', ('compile:%s' % problem[0]) if got[0] == 'fail' else
+                 '%s:%s' % (kind, problem[0]), what + '\n' + problem[1])
             continue
         if base is not None:
             d = vs_rows(base[1], base[2], got[1], got[2])
@@ -333,31 +350,63 @@ def check_case(case):
     setup()
     prog = functorgen.prog_from_json(case['prog'])
     results, text = check_prog(prog, only=case.get('pred'))
-    return [(r['bucket'], r['detail']) for r in results if r['status'] == 'fail']
+    out, seen = [], set()
+    for r in results:
+        if r['status'] == 'fail' and r['bucket'] not in seen:
+            seen.add(r['bucket'])
+            out.append((r['bucket'], r['detail']))
+    return out
+
+
+def well_formed(prog_json):
+    """Every predicate referred to by a rule or a functor statement is defined."""
+    prog = functorgen.prog_from_json(prog_json)
+    defined = set(r['pred'] for r in prog['rules']) | set(prog.get('inj', {})) | \
+        set(mk[0] for mk in prog['make'])
+    used = set()
+    for r in prog['rules']:
+        used |= set(functorgen.rule_refs(r))
+    for name, functor, args in prog['make']:
+        used.add(functor)
+        used |= set(a for a, v in args) | set(v[1] for a, v in args if v[0] == 'pred')
+    return used <= defined
 
 
 def minimise(case, bucket):
-    """Drop functor statements, then rules, then body literals while the same bucket
-    still fails for the same predicate."""
+    """Bounded delta debugging (count budgets): drop functor statements, then rules,
+    then body literals of the remaining rules while the same bucket still fails for
+    the same predicate."""
     def fails(c):
-        return any(b == bucket for b, d in check_case(c))
-    prog = dict(case['prog'])
-    prog.pop('make_at', None)
-    c0 = dict(case, prog=prog)
-    if fails(c0):
-        case = c0
+        return well_formed(c['prog']) and any(b == bucket for b, d in check_case(c))
 
-    def with_makes(ms):
+    def variant(**kw):
         p = dict(case['prog'])
-        p['make'] = list(ms)
         p.pop('make_at', None)
+        p.update(kw)
         return dict(case, prog=p)
+    c0 = variant()
+    if not fails(c0):
+        return case
+    case = c0
     ms = core.ddmin(list(case['prog'].get('make', [])),
-                    lambda sub: fails(with_makes(sub)), max_tests=40)
-    if len(ms) < len(case['prog'].get('make', [])):
-        case = with_makes(ms)
-    small = common.minimise_program(case, bucket, check_case)
-    small['prog']['make'] = case['prog'].get('make', [])
-    if 'make_at' in case['prog']:
-        small['prog']['make_at'] = case['prog']['make_at']
-    return small if fails(small) else case
+                    lambda sub: fails(variant(make=list(sub))), max_tests=25)
+    case = variant(make=list(ms))
+    rs = core.ddmin(list(case['prog']['rules']),
+                    lambda sub: fails(variant(rules=list(sub))), max_tests=60)
+    case = variant(rules=list(rs))
+    left = 30
+    for i, r in enumerate(list(case['prog']['rules'])):
+        body = list(r.get('body') or ())
+        if len(body) < 2 or left <= 0:
+            continue
+
+        def with_body(b, i=i, r=r):
+            rules = list(case['prog']['rules'])
+            rules[i] = dict(r, body=list(b))
+            return variant(rules=rules)
+        n = min(left, 8)
+        left -= n
+        b = core.ddmin(body, lambda sub: fails(with_body(sub)), max_tests=n)
+        if len(b) < len(body):
+            case = with_body(b)
+    return case
